@@ -122,6 +122,16 @@ impl Property for C04 {
             "<math><mrow><mn>37.25</mn><mo>+</mo><mfrac><mn>11.52</mn><mn>48.75</mn></mfrac><mo>=</mo><msqrt><mn>92.16</mn></msqrt></mrow></math>",
             "<math><mrow><munderover><mo>∑</mo><mrow><mi>i</mi><mo>=</mo><mn>10.51</mn></mrow><mn>20.75</mn></munderover><msub><mi>a</mi><mn>31.25</mn></msub></mrow></math>",
             "<math><mrow><mo>(</mo><mtable><mtr><mtd><mn>11.25</mn></mtd><mtd><mn>22.35</mn></mtd></mtr><mtr><mtd><mn>33.45</mn></mtd><mtd><mn>44.55</mn></mtd></mtr></mtable><mo>)</mo></mrow></math>",
+            // shapes whose intents come from the language-independent intent rules and need a rule (or a working
+            // catch-all) in every language: signed entries of tables read as lines / systems / cases, magnitudes,
+            // absolute values, binomials, factorials, logs with a base, definite integrals, limits, evaluated-at bars
+            "<math><mtable><mtr><mtd><mi>x</mi></mtd><mtd><mo>=</mo></mtd><mtd><mrow><mo>-</mo><mn>21.25</mn></mrow></mtd></mtr><mtr><mtd><mi>y</mi></mtd><mtd><mo>=</mo></mtd><mtd><mrow><mo>+</mo><mn>42.35</mn></mrow></mtd></mtr></mtable></math>",
+            "<math><mtable><mtr><mtd><mn>11.25</mn></mtd><mtd><mrow><mo>-</mo><mn>22.35</mn></mrow></mtd></mtr><mtr><mtd><mrow><mo>-</mo><mn>33.45</mn></mrow></mtd><mtd><mn>44.55</mn></mtd></mtr></mtable></math>",
+            "<math><mrow><mi>f</mi><mo>(</mo><mi>x</mi><mo>)</mo><mo>=</mo><mrow><mo>{</mo><mtable><mtr><mtd><mn>11.25</mn></mtd><mtd><mrow><mo>-</mo><mn>22.35</mn></mrow><mo>&lt;</mo><mi>x</mi></mtd></mtr><mtr><mtd><mn>33.45</mn></mtd><mtd><mrow><mo>-</mo><mn>44.55</mn></mrow><mo>&gt;</mo><mi>x</mi></mtd></mtr></mtable></mrow></mrow></math>",
+            "<math><mrow><mrow><mo>‖</mo><mn>21.25</mn><mo>‖</mo></mrow><mo>+</mo><mrow><mo>|</mo><mrow><mo>-</mo><mn>32.35</mn></mrow><mo>|</mo></mrow><mo>+</mo><mn>43.45</mn></mrow></math>",
+            "<math><mrow><mrow><mo>(</mo><mfrac linethickness='0'><mn>21</mn><mn>12</mn></mfrac><mo>)</mo></mrow><mo>+</mo><mrow><mn>33</mn><mo>!</mo></mrow><mo>+</mo><mrow><msub><mi>log</mi><mn>24.25</mn></msub><mo>&#x2061;</mo><mn>35.35</mn></mrow></mrow></math>",
+            "<math><mrow><mrow><msubsup><mo>∫</mo><mn>11.25</mn><mn>22.35</mn></msubsup><mrow><mn>33.45</mn><mi>x</mi></mrow><mi>d</mi><mi>x</mi></mrow><mo>+</mo><mrow><munder><mi>lim</mi><mrow><mi>x</mi><mo>→</mo><mn>44.55</mn></mrow></munder><mrow><mn>55.65</mn><mi>x</mi></mrow></mrow></mrow></math>",
+            "<math><mrow><msubsup><mrow><mo>[</mo><mrow><mn>21.25</mn><mi>x</mi></mrow><mo>]</mo></mrow><mn>12.35</mn><mn>43.45</mn></msubsup><mo>+</mo><mover><mrow><mn>54.55</mn><mi>x</mi></mrow><mo>¯</mo></mover></mrow></math>",
         ];
         let mut out = vec![];
         for l in languages() {
